@@ -4,7 +4,6 @@ INVARIANT TypeOK
 INVARIANT NoDuplicateLeaf
 INVARIANT AllLeavesVisitedAtStop
 INVARIANT NoTrialAfterExhaustion
-INVARIANT TrialsBounded
 INVARIANT AlgAgrees
 PROPERTY Terminates
 CHECK_DEADLOCK TRUE
